@@ -33,16 +33,94 @@ CERT = "acmed::certificate::Certificate"
 SR = CERT + "::schedule_renewal"
 
 
+SCHED_SAMPLES = [
+    # (files exist, configured identifiers, certificate names, expires_in, renew_delay, random_early_renew, drawn jitter)
+    (False, ["a.example"], ["a.example"], 1000, 300, 0, 0),
+    (True, ["a.example", "b.example"], ["a.example"], 1000, 300, 0, 0),
+    (True, ["a.example"], ["b.example"], 1000, 300, 0, 0),
+    (True, ["a.example"], ["a.example", "z.example"], 1000, 300, 0, 0),
+    (True, ["a.example", "192.0.2.7"], ["192.0.2.7", "a.example"], 1000, 300, 0, 0),
+    (True, ["a.example"], ["a.example"], 1000, 300, 500, 70),
+    (True, ["a.example"], ["a.example"], 1000, 300, 500, 499),
+    (True, ["a.example"], ["a.example"], 1000, 900, 500, 400),
+    (True, ["a.example"], ["a.example"], 200, 300, 0, 0),
+    (True, ["a.example"], ["a.example"], 200, 300, 500, 70),
+    (True, ["a.example"], ["a.example"], 0, 300, 0, 0),
+    (True, [], ["a.example"], 1000, 300, 0, 0),
+]
+
+
+def schedule_table(prog):
+    """schedule_renewal EVALUATED as a whole (Certificate methods followed): the existence test, the certificate's names and
+    remaining validity and the random draw are given; the answer is compared with the property's definition — 0 when a file or a
+    name is missing, otherwise (expires_in - renew_delay - jitter) saturating at 0, the jitter being drawn from [0, random_early_renew)
+    only when that is non-zero. Returns [(sample, got, want, draws)] or None."""
+    from ..absint import Interp, Val, async_state, marker, ok, struct_val, success_model, vbool, vstr
+    b = prog.async_body(SR)
+    if b is None:
+        return None
+    rows = []
+    for (exists, ids, sans, E, delay, R, J) in SCHED_SAMPLES:
+        draws = []
+
+        def ov(cs, args):
+            n = cs.name or ""
+            if n.endswith("storage::certificate_files_exists"):
+                return vbool(exists)
+            if n.endswith("X509Certificate::subject_alt_names"):
+                return Val("list", [vstr(x) for x in sans], "set")
+            if n.endswith("X509Certificate::expires_in"):
+                return ok(Val("int", E, "dur"))
+            if n.endswith("::gen_range"):
+                rg = args[1].deref() if len(args) > 1 else None
+                lo = rg.v[0].deref() if rg is not None and rg.k == "adt" and len(rg.v) == 2 else None
+                hi = rg.v[1].deref() if rg is not None and rg.k == "adt" and len(rg.v) == 2 else None
+                draws.append((lo.v if lo is not None and lo.k == "int" else None, hi.v if hi is not None and hi.k == "int" else None,
+                              (rg.extra[0].rsplit("::", 1)[-1] if rg is not None and rg.k == "adt" and rg.extra else None)))
+                return Val("int", J, "dur")
+            return None
+        try:
+            idl = Val("list", [struct_val(prog, "acmed::identifier::Identifier", {"value": vstr(x)}) for x in ids])
+            me = struct_val(prog, CERT, {"identifiers": idl, "renew_delay": Val("int", delay, "dur"), "random_early_renew": Val("int", R, "dur"), "file_manager": marker("FM")})
+            st = async_state(prog, SR, lambda name, ty, i: Val("ref", me) if ty.endswith("certificate::Certificate") else None)
+            it = Interp(b, success_model(b, ov, skip_unknown_loops=True), 200000)
+            it.follow = lambda cs: (cs.name or "").startswith(CERT + "::") and not (cs.name or "").endswith(("::debug", "::info", "::warn", "::trace"))
+            r = it.run({1: st})
+        except Exception:
+            return None
+        rv = r.ret.deref() if r.kind == "return" and r.ret is not None else None
+        if rv is None or rv.k != "adt" or not rv.extra or rv.extra[1] != "Ok" or not rv.v or rv.v[0].deref().k != "int":
+            return None
+        missing = [x for x in ids if x not in sans]
+        if not exists or missing:
+            want, want_draws = 0, []
+        else:
+            want = max(0, E - delay)
+            want_draws = [(0, R, "Range")] if R > 0 else []
+            if R > 0:
+                want = max(0, want - J)
+        rows.append(((exists, ids, sans, E, delay, R, J), rv.v[0].deref().v, want, draws, want_draws))
+    return rows
+
+
 def check(ctx):
     prog = ctx.prog
     R1 = ctx.rule("R1", "renew_in only when files exist and no identifier is missing; early answers are Duration::ZERO; tests have the right scope and direction")
     b = prog.async_body(SR)
-    rn = b.calls_to(CERT + "::renew_in")
-    fe = b.calls_to("acmed::storage::certificate_files_exists")
-    hm = b.calls_to(CERT + "::has_missing_identifiers")
-    ctx.floor(R1, "renew_in call", len(rn), 1)
-    ctx.floor(R1, "certificate_files_exists call", len(fe), 1)
-    ctx.floor(R1, "has_missing_identifiers call", len(hm), 1)
+    sched = schedule_table(prog)
+    if sched is not None:
+        ctx.floor(R1, "evaluated schedule_renewal samples", len(sched), 10)
+        for smp, got, want, draws, want_draws in sched:
+            ctx.require(R1, got == want, "%s:%s" % (b.file, b.line),
+                        "files exist=%s, configured %s, certificate names %s, expires in %ss, renew_delay %ss, random_early_renew %ss (draw %ss): wait %ss (definition: %ss)" % (smp + (got, want)),
+                        [SR, "evaluated", repr(smp)])
+    rn = b.calls_to(CERT + "::renew_in") if sched is None else []
+    fe = b.calls_to("acmed::storage::certificate_files_exists") if sched is None else []
+    hm = b.calls_to(CERT + "::has_missing_identifiers") if sched is None else []
+    if sched is None:
+        ctx.floor(R1, "renew_in call", len(rn), 1)
+        ctx.floor(R1, "certificate_files_exists call", len(fe), 1)
+        ctx.floor(R1, "has_missing_identifiers call", len(hm), 1)
     if rn and fe and hm:
         t, f = call_true_false_edges(b, fe[0])
         ok, hit = unreachable_without(b, [c.bb for c in rn], removed_edges=t)
@@ -82,53 +160,63 @@ def check(ctx):
     # the compared texts are in the same form: configured identifiers are normalised at load (shared with C01.R4)
     from .c01 import normalisation_rule
     normalisation_rule(ctx, R1)
-    # direction of the difference
-    hb = prog.must_body(CERT + "::has_missing_identifiers")
-    diffs = hb.calls_to("std::collections::hash::set::HashSet::difference")
-    ctx.floor(R1, "HashSet::difference in has_missing_identifiers", len(diffs), 1)
-    for c in diffs:
-        a0 = arg_origins(c, 0)
-        a1 = arg_origins(c, 1)
-        req_left = (CERT, "identifiers") in a0.fields and not any(x.is_("*subject_alt_names") for x in a0.calls)
-        names_right = any(x.is_("acme_common::crypto::openssl_certificate::X509Certificate::subject_alt_names") for x in a1.calls) and (CERT, "identifiers") not in a1.fields
-        ctx.require(R1, req_left and names_right, c.where(), "missing = required identifiers \\ certificate names (not the reverse)", [CERT + "::has_missing_identifiers", "difference-direction"])
-    # the required set is built from identifiers[].value by a closure reading `value`
-    for c in hb.calls_to("core::iter::traits::iterator::Iterator::map"):
-        for g in c.gbodies:
-            gb = prog.body(g)
-            if gb is None:
-                continue
-            reads = {(e.get("adt"), e.get("n")) for blk in gb.blocks for st in blk["stmts"] if st["s"] == "assign"
-                     for key in ("place",) if st["rv"].get(key) for e in st["rv"][key]["p"] if isinstance(e, dict)}
-            if ("acmed::identifier::Identifier", "value") in reads:
-                ctx.ok(R1, "required names = identifiers[].value (%s)" % g.rsplit("::", 1)[1])
-    sr = origins(hb, {"l": 0, "p": []})
-    DIFF = "std::collections::hash::set::HashSet::difference"
-    data_form = (sr.via_any("binop:Ne") or sr.via_any("binop:Gt")) and (sr.via_any(DIFF) or any(x.is_(DIFF) for x in sr.calls))
-    ctl_form = False
-    if not data_form:
-        # `if uncovered.is_empty() { return false } ... true`: constants selected by an emptiness test of the difference
-        from ..util import assigns_const_to
-        tb = assigns_const_to(hb, 0, lambda c: c.get("bool") is True)
-        fb = assigns_const_to(hb, 0, lambda c: c.get("bool") is False)
-        for c in hb.calls:
-            if c.bb in hb.live_blocks() and (c.name or "").rsplit("::", 1)[-1] == "is_empty":
-                a = arg_origins(c, 0)
-                if not (a.via_any(DIFF) or any(x.is_(DIFF) for x in a.calls)):
+    if sched is None:
+        # direction of the difference
+        hb = prog.must_body(CERT + "::has_missing_identifiers")
+        diffs = hb.calls_to("std::collections::hash::set::HashSet::difference")
+        ctx.floor(R1, "HashSet::difference in has_missing_identifiers", len(diffs), 1)
+        for c in diffs:
+            a0 = arg_origins(c, 0)
+            a1 = arg_origins(c, 1)
+            req_left = (CERT, "identifiers") in a0.fields and not any(x.is_("*subject_alt_names") for x in a0.calls)
+            names_right = any(x.is_("acme_common::crypto::openssl_certificate::X509Certificate::subject_alt_names") for x in a1.calls) and (CERT, "identifiers") not in a1.fields
+            ctx.require(R1, req_left and names_right, c.where(), "missing = required identifiers \\ certificate names (not the reverse)", [CERT + "::has_missing_identifiers", "difference-direction"])
+        # the required set is built from identifiers[].value by a closure reading `value`
+        for c in hb.calls_to("core::iter::traits::iterator::Iterator::map"):
+            for g in c.gbodies:
+                gb = prog.body(g)
+                if gb is None:
                     continue
-                t, f = call_true_false_edges(hb, c)
-                ok_t, _h = unreachable_without(hb, tb, removed_edges=f)
-                ok_f, _h = unreachable_without(hb, fb, removed_edges=t)
-                ctl_form = bool(tb) and bool(fb) and bool(t) and ok_t and ok_f
-    ctx.require(R1, data_form or ctl_form, "%s:%s" % (hb.file, hb.line), "has_missing_identifiers is true exactly when the difference is not empty", [CERT + "::has_missing_identifiers", "result"])
+                reads = {(e.get("adt"), e.get("n")) for blk in gb.blocks for st in blk["stmts"] if st["s"] == "assign"
+                         for key in ("place",) if st["rv"].get(key) for e in st["rv"][key]["p"] if isinstance(e, dict)}
+                if ("acmed::identifier::Identifier", "value") in reads:
+                    ctx.ok(R1, "required names = identifiers[].value (%s)" % g.rsplit("::", 1)[1])
+        sr = origins(hb, {"l": 0, "p": []})
+        DIFF = "std::collections::hash::set::HashSet::difference"
+        data_form = (sr.via_any("binop:Ne") or sr.via_any("binop:Gt")) and (sr.via_any(DIFF) or any(x.is_(DIFF) for x in sr.calls))
+        ctl_form = False
+        if not data_form:
+            # `if uncovered.is_empty() { return false } ... true`: constants selected by an emptiness test of the difference
+            from ..util import assigns_const_to
+            tb = assigns_const_to(hb, 0, lambda c: c.get("bool") is True)
+            fb = assigns_const_to(hb, 0, lambda c: c.get("bool") is False)
+            for c in hb.calls:
+                if c.bb in hb.live_blocks() and (c.name or "").rsplit("::", 1)[-1] == "is_empty":
+                    a = arg_origins(c, 0)
+                    if not (a.via_any(DIFF) or any(x.is_(DIFF) for x in a.calls)):
+                        continue
+                    t, f = call_true_false_edges(hb, c)
+                    ok_t, _h = unreachable_without(hb, tb, removed_edges=f)
+                    ok_f, _h = unreachable_without(hb, fb, removed_edges=t)
+                    ctl_form = bool(tb) and bool(fb) and bool(t) and ok_t and ok_f
+        ctx.require(R1, data_form or ctl_form, "%s:%s" % (hb.file, hb.line), "has_missing_identifiers is true exactly when the difference is not empty", [CERT + "::has_missing_identifiers", "result"])
 
     # ------------------------------------------------------------------ R2
     R2 = ctx.rule("R2", "no undischarged panic/overflow in the expiry computation; saturating Duration arithmetic in the right order; time difference = not_after - now, clamped at 0")
-    counts = enumerate_reach(ctx, R2, [CERT + "::renew_in", CERT + "::has_missing_identifiers"], crates=("acmed", "acme_common"))
-    gen_range_guard(ctx, R2)
-    rb = prog.must_body(CERT + "::renew_in")
-    ss = rb.calls_to("core::time::Duration::saturating_sub")
-    ctx.floor(R2, "Duration::saturating_sub in renew_in", len(ss), 2)
+    ents = [k for k in (CERT + "::renew_in", CERT + "::has_missing_identifiers") if prog.body(k) is not None]
+    if len(ents) < 2 and sched is not None:
+        ents = [SR, SR + "::{closure#0}"]        # the helpers were folded into other functions: enumerate from the entry point
+    counts = enumerate_reach(ctx, R2, ents or [CERT + "::renew_in"], crates=("acmed", "acme_common"))
+    if sched is not None:
+        for smp, got, want, draws, want_draws in sched:
+            ctx.require(R2, draws == want_draws, "%s:%s" % (b.file, b.line), "random_early_renew = %ss: random draws %s (expected %s: one draw from the half-open range 0..random_early_renew, none when it is zero — an empty range panics)"
+                        % (smp[5], draws, want_draws), [SR, "jitter-draw", repr(smp)])
+    else:
+        gen_range_guard(ctx, R2)
+    rb = prog.must_body(CERT + "::renew_in") if sched is None else None
+    ss = rb.calls_to("core::time::Duration::saturating_sub") if rb is not None else []
+    if sched is None:
+        ctx.floor(R2, "Duration::saturating_sub in renew_in", len(ss), 2)
     first_ok = False
     for c in ss:
         a0 = arg_origins(c, 0)
@@ -139,10 +227,11 @@ def check(ctx):
             ctx.require(R2, first_ok, c.where(), "expires_in.saturating_sub(renew_delay): receiver is the expiry, argument the delay", [CERT + "::renew_in", "operand-order"])
         elif a1.via_any("rand::rng::Rng::gen_range", "rand::Rng::gen_range"):
             ctx.require(R2, from_exp, c.where(), "the jitter is subtracted (saturating) from the remaining time", [CERT + "::renew_in", "jitter-order"])
-    ctx.require(R2, first_ok, "%s:%s" % (rb.file, rb.line), "renew_delay is subtracted from the expiry with saturating_sub", [CERT + "::renew_in", "renew-delay-used"])
-    # returned value derives from those
-    ret = origins(rb, {"l": 0, "p": []})
-    ctx.require(R2, ret.via_any("core::time::Duration::saturating_sub"), "%s:%s" % (rb.file, rb.line), "renew_in returns the saturating result", [CERT + "::renew_in", "result"])
+    if sched is None:
+        ctx.require(R2, first_ok, "%s:%s" % (rb.file, rb.line), "renew_delay is subtracted from the expiry with saturating_sub", [CERT + "::renew_in", "renew-delay-used"])
+        # returned value derives from those
+        ret = origins(rb, {"l": 0, "p": []})
+        ctx.require(R2, ret.via_any("core::time::Duration::saturating_sub"), "%s:%s" % (rb.file, rb.line), "renew_in returns the saturating result", [CERT + "::renew_in", "result"])
     eb = prog.must_body("acme_common::crypto::openssl_certificate::X509Certificate::expires_in")
     df = eb.calls_to("openssl::asn1::Asn1TimeRef::diff")
     ctx.floor(R2, "Asn1TimeRef::diff in expires_in", len(df), 1)
